@@ -350,18 +350,20 @@ fn chunk_strategy(p: &GenParams) -> BoxedStrategy<Vec<Op>> {
     // (record = 7-byte header + 17 bytes of batch framing + key + value), then re-opened for
     // appending (reuse_log_files) and written to again: block-trailer handling of a reused log
     let waltail = (
-        (sel(), 32_715u32..32_750, select(vec![100_000usize, 4 * 1024 * 1024])),
+        (sel(), 1u8..=6, select(vec![100_000usize, 4 * 1024 * 1024])),
         (select(vec![400u64, 2048, 1024 * 1024]), select(vec![128usize, 4096])),
         prop::collection::vec((sel(), v()), 1..4),
         any::<bool>(),
     )
-        .prop_map(move |((k, len, memtable), (file, block), after, reuse_last)| {
+        .prop_map(move |((k, r, memtable), (file, block), after, reuse_last)| {
             let mut o = vec![];
             if reopens {
                 o.push(Op::Reopen(Cfg { memtable, file, block, reuse: false }));
             }
-            o.push(Op::Put(k, Val { len, compressible: false }));
-            if reopens {
+            o.push(Op::PutTail(k, r));
+            // half of the chunks go on writing with the same log writer (it pads the block itself),
+            // the other half re-open the log for appending first
+            if reopens && reuse_last {
                 o.push(Op::Reopen(Cfg { memtable, file, block, reuse: true }));
             }
             let keys: Vec<Sel> = after.iter().map(|(s, _)| *s).collect();
